@@ -171,12 +171,12 @@ type observer struct {
 	cond *sync.Cond
 
 	// lifetime of the running service
-	up      bool
-	cancel  context.CancelFunc
-	client  *ethclient.Client
-	done    chan struct{}
-	runErr  error
-	gen     int // session generation: calls of an ended session leave the gate
+	up     bool
+	cancel context.CancelFunc
+	client *ethclient.Client
+	done   chan struct{}
+	runErr error
+	gen    int // session generation: calls of an ended session leave the gate
 	// shadow of the cursor in ABSTRACT block numbers (EventSyncer.FromBlock / FromLogIndex and the
 	// loop's fromBlock); used ONLY to know how long to wait for a page, never as an oracle
 	sessFb, sessFl, curFrom int
@@ -214,7 +214,9 @@ type World struct {
 	real  [][]*fakeeth.Block // per observer: record id-1 -> last real block of the record
 	notes []string
 	nmu   sync.Mutex
-	calls int
+	// shadowGE: the waiting shadow of the cursor uses ">=" (set when the plan runs with CursorRule "ge")
+	shadowGE bool
+	calls    int
 }
 
 func (w *World) note(format string, a ...any) {
@@ -399,6 +401,8 @@ func (w *World) concretise(e Ev) fakeeth.LogSpec {
 		}
 	case "nodata":
 		l.Data = []byte{}
+	case "xtopic":
+		l.Topics = append(append([]common.Hash{}, l.Topics...), common.BigToHash(common.Big1))
 	case "wide": // a uint64 word with a bit above 2^64: the first / the last word
 		d := append([]byte{}, l.Data...)
 		if (e.Pos+int(w.Seed))%2 == 0 {
@@ -881,7 +885,7 @@ func (o *observer) start(f FaultJ) (ret string, detail string) {
 	}
 	o.mu.Lock()
 	o.up = true
-	if nb > minD {
+	if nb > minD || (nb == minD && o.w.shadowGE) {
 		o.sessFb, o.sessFl = nb, pr.Li
 	} else {
 		o.sessFb, o.sessFl = minD, 0
@@ -1083,7 +1087,13 @@ func (o *observer) poll(f FaultJ) pollObs {
 		if exp > 0 && fin >= exp {
 			return true
 		}
-		return fin >= o.txCount && time.Since(last) > quietLimit
+		if fin >= o.txCount && time.Since(last) > quietLimit {
+			if os.Getenv("VERIF_CHAINOBS_DEBUG") != "" {
+				fmt.Fprintf(os.Stderr, "chainobs debug: quiet path: fin=%d txCount=%d exp=%d refused=%v fault=%+v\n", fin, o.txCount, exp, o.refused, o.f)
+			}
+			return true
+		}
+		return false
 	})
 	if !ok {
 		o.kill()
